@@ -4,6 +4,7 @@
 (* of the case's kind.  All lines are judged; the set of rejected line     *)
 (* numbers is printed at the end ("BAD" line) - TLC decides every case.    *)
 EXTENDS TextMatch, ReMatch, Cond, ArenaFile, Json, IOUtils, TLC
+AL == INSTANCE ApiLifecycle WITH comp <- 0, rules <- 0, scanner <- 0, armed <- 0, history <- 0
 HR == INSTANCE HashRange WITH KeyWithAlg <- TRUE, KeyIsArgs <- TRUE, cache <- 0, last <- 0, ncalls <- 0
 
 VARIABLES l, bad, known
@@ -18,6 +19,8 @@ CaseOK(c) ==
     [] c.kind = "load" -> c.ret = LoadBytes(c.file, c.n)
     [] c.kind = "corrupt" -> CorruptOK(c.ret)
     [] c.kind = "range" -> c.claim = HR!Addressed(c.blocks, c.o, c.l)
+    [] c.kind = "apiop" -> AL!OpOK([c EXCEPT !.allowed = {c.allowed[i] : i \in DOMAIN c.allowed}])
+    [] c.kind = "apirun" -> AL!RunOK(c)
     [] OTHER -> FALSE
 
 \* disagreements that carry the signature of a recorded known finding (decided from the case, spec side)
